@@ -53,6 +53,9 @@ Inductive case :=
 | KLqlRel (s : bytes) (floatok : bool) (o : outcome unit)
 (* SHOW PARTITIONS OFFSET offset LIMIT limit on a server with n matching partitions: how many were listed *)
 | KShowParts (n : nat) (offset limit : Z) (o : outcome nat)
+| KSplit (s : bytes) (o : outcome (list bytes))
+| KRcb (s : bytes) (o : outcome bytes)
+| KTrim (s : bytes) (o : outcome bytes)
 | KOracleOnly (tag : nat).
 
 Definition check (c : case) : bool :=
@@ -89,6 +92,10 @@ Definition check (c : case) : bool :=
   | KEscape s o => outcome_eqb bytes_eqb (escape_json s) o
   | KLqlRel s fok o => outcome_eqb unit_eqb (lql_rel_time (fun _ => fok) s) o
   | KShowParts n offset limit o => outcome_eqb Nat.eqb (parts_page code_guards_paging n offset limit) o
+  (* kvstring.SplitString(s, '=', ',', nil), RemoveCurlyBraces, TrimSpaces: the scanners of C13_total_kvstring themselves *)
+  | KSplit s o => outcome_eqb (list_eqb bytes_eqb) (split_string s c_eq c_comma) o
+  | KRcb s o => outcome_eqb bytes_eqb (remove_curly_braces s) o
+  | KTrim s o => outcome_eqb bytes_eqb (trim_spaces s) o
   | KOracleOnly _ => true
   end.
 
